@@ -540,7 +540,10 @@ func LocalNamed(name string) Term {
 		if !ok || id.Name != name {
 			return false
 		}
-		_, isVar := f.Info().Uses[id].(*types.Var)
+		if _, isVar := f.Info().Uses[id].(*types.Var); isVar {
+			return true
+		}
+		_, isVar := f.Info().Defs[id].(*types.Var)
 		return isVar
 	}
 }
@@ -743,4 +746,19 @@ func (f *Func) GuardsAt(s Site) []string {
 		}
 	}
 	return out
+}
+
+func constantInt(tv types.TypeAndValue) *int64 {
+	if tv.Value == nil {
+		return nil
+	}
+	c := constant.ToInt(tv.Value)
+	if c.Kind() != constant.Int {
+		return nil
+	}
+	x, exact := constant.Int64Val(c)
+	if !exact {
+		return nil
+	}
+	return &x
 }
